@@ -41,7 +41,7 @@ abbrev Dir := Option Content
 /-- outcome of the last finished operation (exception class → enum) -/
 inductive Res
   | never | ok | notHeld | lockBroken | contention | lockFailed | corrupt | mismatch
-  | noSuchFile | faultT | faultP | assert | swallowed | nothing | broken
+  | noSuchFile | faultT | faultP | assert | swallowed | nothing | broken | attrError
 deriving DecidableEq, Repr
 
 /-- injected transport error: `T` = `TransportError` that is not a `PathError`
@@ -214,7 +214,9 @@ def lstep (id : Nat) (cfg : Nat → Cfg) (crashed : Nat → Bool) (me : Locker) 
   -- force_break x
   | .bPeek x ret =>
     match peekDir held with
-    | .none => if ret then ({ me with pc := .aRename }, held, none) else (me.done .nothing, held, none)
+    -- `force_break` returns None ("must have been recently released"); `break_lock` then evaluates
+    -- `result.lock_url` on it and dies with AttributeError
+    | .none => if ret then ({ me with pc := .aRename }, held, none) else (me.done .attrError, held, none)
     | .corrupt _ => (breakErr me ret .corrupt, held, none)
     | .ok y =>
       if y = x then ({ me with pc := .bRename x ret }, held, none)
@@ -350,7 +352,7 @@ def Res.show : Res → String
   | .contention => "E:Contention" | .lockFailed => "E:LockFailed" | .corrupt => "E:Corrupt"
   | .mismatch => "E:Mismatch" | .noSuchFile => "E:NoSuchFile" | .faultT => "E:FaultT"
   | .faultP => "E:FaultP" | .assert => "E:Assert" | .swallowed => "swallowed"
-  | .nothing => "none" | .broken => "broken"
+  | .nothing => "none" | .broken => "broken" | .attrError => "E:AttributeError"
 
 def Kind.show : Kind → String
   | .P => "P" | .R => "R" | .B => "B"
